@@ -187,6 +187,13 @@ func (c *ATConn) createNewTxOnExecIfNeed(ctx context.Context, f func() (types.Ex
 
 	ret, err := f()
 	if err != nil {
+		// the statement failed: the local transaction opened for it must not stay
+		// open on the pooled connection (with whatever the statement already wrote)
+		if tx != nil {
+			if rollbackErr := tx.Rollback(); rollbackErr != nil {
+				log.Errorf("conn at rollback error:%v", rollbackErr)
+			}
+		}
 		return nil, err
 	}
 
